@@ -1,254 +1,1614 @@
-"""C18: where the snapshot cache is read / written / evicted, read from the AST of replicat/repository.py.
+"""C18: where the snapshot cache is read / written / evicted — read from replicat/repository.py by a small symbolic executor.
 
 The model (`Repo.loadCandidatesC`, `CacheCmd.*`) has exactly this shape:
-  * the cache is READ in one place, `_download_snapshot_threadsafe` (`cacheReadSites`), which is called only for paths the
-    backend listing returned (`cacheLoadOverListing`: the single `run_in_executor(loader, _download_snapshot, path)` sits in the
-    `async for path in self._aiter(self.backend.list_files, self.SNAPSHOT_PREFIX)` loop of `_load_snapshots`);
-  * it is WRITTEN in the same function after the downloaded bytes were verified (`cacheStoreAfterVerify`);
-  * `delete_snapshots` unlinks the entry of every snapshot it deletes (`deleteEvictsCache`).
-(`cacheVerified` — the cached copy is compared with the expected digest before use — is emitted by the core extractor.)
-Anything not recognised yields `false` / a different list and `Properties/C18.lean` stops compiling.
+  * the cache is READ only while loading a snapshot whose path the backend listing returned (`cacheReadSites`,
+    `cacheLoadOverListing`), and WRITTEN only there, after the downloaded bytes were verified (`cacheStoreSites`,
+    `cacheStoreAfterVerify`);
+  * `delete_snapshots` unlinks the entry of every snapshot it deletes, after the backend deletion (`deleteEvictsCache`);
+  * nothing else is done with the cache directory (`cacheDirUses`);
+  * a store is the sequence of file-system operations `cacheStorePlanRaw` (→ `CacheCmd.storePlan`).
+(`cacheVerified` — the cached copy is compared with the expected digest before use — is emitted by the core extractor from the text
+of `_download_snapshot_threadsafe`; `cacheHitVerified` below is the same fact read off the paths, offered as its replacement.)
+
+None of this is recognised by the NAMES of private methods, locals or parameters, nor by the text of statements.  The section
+  1. finds the attribute that `Repository.__init__` fills from its `cache_directory` parameter (public keyword of the constructor);
+  2. indexes every function of the module (methods, nested functions, module-level functions) with a call graph (a reference to a
+     function counts as a call);
+  3. runs `_Interp`, a path-enumerating symbolic executor, over the functions concerned.  Values are abstract (`dir`, `entry key`,
+     `temp key`, `parent`, `stream`, `bytes from cache/download`, `hash v`, `listed path`, symbols with identity …); every `if` /
+     conditional expression / `and` / `or` / `assert` / `try` forks the path; facts that cannot change along a path (`the cache is
+     enabled`, `hash(v) == e`, `x is None`, `entry exists`) are remembered, so `if a: X else: Y`, `if not a: Y else: X`, early
+     returns, conditions hoisted into locals, De Morgan, `==`/`!=` with swapped branches all enumerate the same paths; calls to
+     helpers that (transitively) touch the cache directory or the backend are inlined (self-methods, nested functions, lambdas,
+     `functools.partial`, module-level functions; bounded depth), everything else returns a fresh symbol;
+  4. reads the facts off the EVENTS of the paths (cache read / mkdir / create / write / rename / unlink, backend download / delete /
+     listing, tests of the directory, escapes of the directory or of a path derived from it into code the executor does not know).
+The only names relied upon are public API: `Repository`, its `cache_directory` keyword, `delete_snapshots`, `SNAPSHOT_PREFIX`,
+`self.backend.{list_files, download, delete}`, `hash_digest`, and the standard library (`pathlib`, `os`, `open`, `contextlib.suppress`,
+`functools.partial`, `run_in_executor` / `submit` / `map`, …).
+
+Roles instead of method names: a function with a cache read / store is reported as `"snapshot-load"` when it is entered only from
+the loop over the backend listing of `SNAPSHOT_PREFIX` (all its callers, transitively, lie on that way; it is private; no other
+module of the package names it), otherwise by its own name — so `cacheReadSites = ["snapshot-load"]` says that there is no other
+reader, whatever the helpers are called and however the code is split.
+
+Unknown shapes never yield a guessed `true`: an aborted / exploded analysis, a use of the directory that is not classified, a loop
+around a store, two different store sequences … all come out as `false` / an `escape:` / `aborted:` / `unvisited:` entry in the
+lists, and `Properties/C18.lean` stops compiling.
 """
 import ast
+import os
+
+_FUNC = (ast.FunctionDef, ast.AsyncFunctionDef)
+_MAX_DEPTH = 7
+_MAX_PATHS = 20000
+_MAX_STEPS = 4000000
+_UNIQUE_HINTS = ('uuid', 'getpid', 'get_ident', 'token_hex', 'token_urlsafe', 'random', 'secrets', 'time_ns', 'monotonic',
+                 'mkstemp', 'mktemp', 'NamedTemporaryFile', 'urandom')
+_LOAD_ROLE = 'snapshot-load'
 
 
-def _methods(tree, cls):
-    for n in ast.walk(tree):
-        if isinstance(n, ast.ClassDef) and n.name == cls:
-            return [m for m in n.body if isinstance(m, (ast.FunctionDef, ast.AsyncFunctionDef))]
-    return []
+# ---------------------------------------------------------------------------------------------------------------------------
+# index of the module: functions, call graph, the cache-directory attribute
+def _own(node):
+    """nodes lexically inside `node`, not descending into nested functions / classes (those nodes themselves are yielded)"""
+    stack = list(ast.iter_child_nodes(node))
+    while stack:
+        n = stack.pop()
+        yield n
+        if not isinstance(n, _FUNC + (ast.ClassDef,)):
+            stack.extend(ast.iter_child_nodes(n))
+
+
+class _Fn:
+    def __init__(self, node, parent, cls):
+        self.node, self.parent, self.cls = node, parent, cls
+        self.name = node.name
+        self.qual = (parent.qual + '.' if parent else '') + node.name
+        a = node.args
+        self.pos = [x.arg for x in a.posonlyargs + a.args]
+        self.params = self.pos + [x.arg for x in a.kwonlyargs] + ([a.vararg.arg] if a.vararg else []) + ([a.kwarg.arg] if a.kwarg else [])
+        self.children = {}
+        self.is_gen = any(isinstance(n, (ast.Yield, ast.YieldFrom)) for n in _own(node))
+        decos = [ast.unparse(d).split('.')[-1] for d in node.decorator_list]
+        static = 'staticmethod' in decos
+        self.is_property = cls and ('property' in decos or 'cached_property' in decos)
+        if cls:
+            self.self_name = self.pos[0] if self.pos and not static else None
+        else:
+            self.self_name = parent.self_name if parent is not None and parent.self_name not in self.params else None
+
+    def __repr__(self):
+        return f'<fn {self.qual}>'
+
+
+class _Index:
+    def __init__(self, tree, cls_name):
+        self.funcs, self.module_funcs, self.methods, self.consts = [], {}, {}, {}
+        for st in tree.body:
+            if isinstance(st, _FUNC):
+                self.module_funcs[st.name] = self._add(st, None, False)
+            elif isinstance(st, ast.ClassDef) and st.name == cls_name:
+                for m in st.body:
+                    if isinstance(m, _FUNC):
+                        self.methods[m.name] = self._add(m, None, True)
+            elif isinstance(st, ast.Assign) and len(st.targets) == 1 and isinstance(st.targets[0], ast.Name):
+                self.consts[st.targets[0].id] = None if st.targets[0].id in self.consts else st.value
+        self.consts = {k: v for k, v in self.consts.items() if v is not None}
+        # call graph (references count)
+        self.callees = {f: set() for f in self.funcs}
+        self.callers = {f: set() for f in self.funcs}
+        for f in self.funcs:
+            for n in _own(f.node):
+                if isinstance(n, (ast.Name, ast.Attribute)) and isinstance(n.ctx, ast.Load):
+                    g = self.resolve(f, n)
+                    if g is not None and g is not f:
+                        self.callees[f].add(g)
+                        self.callers[g].add(f)
+        # the attribute(s) holding the cache directory: what `__init__` (or a helper method it hands the argument to) assigns from
+        # its `cache_directory` parameter;  init_fns: function -> its parameters that carry the directory
+        self.cdir, self.init_fns = set(), {}
+        init = self.methods.get('__init__')
+        todo = [(init, {'cache_directory'})] if init is not None and 'cache_directory' in init.params else []
+        while todo and len(self.init_fns) < 4:
+            fn, tainted = todo.pop()
+            tainted = set(tainted)
+            self.init_fns[fn] = set(tainted)
+            for _ in range(3):
+                for n in _own(fn.node):
+                    tgts, val = [], None
+                    if isinstance(n, ast.Assign):
+                        tgts, val = n.targets, n.value
+                    elif isinstance(n, ast.AnnAssign) and n.value is not None:
+                        tgts, val = [n.target], n.value
+                    if val is None or not any(isinstance(x, ast.Name) and x.id in tainted for x in ast.walk(val)):
+                        continue
+                    for t in tgts:
+                        if isinstance(t, ast.Name):
+                            tainted.add(t.id)
+                        elif isinstance(t, ast.Attribute) and isinstance(t.value, ast.Name) and t.value.id == fn.self_name:
+                            self.cdir.add(t.attr)
+            for n in _own(fn.node):
+                if isinstance(n, ast.Call) and isinstance(n.func, ast.Attribute):
+                    g = self.resolve(fn, n.func)
+                    if g is None or g in self.init_fns or self.callers[g] - set(self.init_fns):
+                        continue
+                    names = g.pos[1:] if g.self_name else g.pos
+                    carried = {names[i] for i, a in enumerate(n.args) if i < len(names) and isinstance(a, ast.Name) and a.id in tainted}
+                    carried |= {k.arg for k in n.keywords if k.arg and isinstance(k.value, ast.Name) and k.value.id in tainted}
+                    if carried:
+                        todo.append((g, carried))
+        # every node that names the directory attribute, with its function
+        self.dir_nodes = {}
+        owner = {}
+        for f in self.funcs:
+            for n in _own(f.node):
+                owner[id(n)] = f
+        for n in ast.walk(tree):
+            if isinstance(n, ast.Attribute) and n.attr in self.cdir and isinstance(n.value, ast.Name):
+                self.dir_nodes[id(n)] = owner.get(id(n))
+        self.d0 = {f for f in self.dir_nodes.values() if f is not None}
+
+    def _add(self, node, parent, cls):
+        f = _Fn(node, parent, cls)
+        self.funcs.append(f)
+        for n in _own(node):
+            if isinstance(n, _FUNC):
+                f.children[n.name] = self._add(n, f, False)
+        return f
+
+    def resolve(self, fn, n):
+        if isinstance(n, ast.Attribute):
+            if isinstance(n.value, ast.Name) and fn.self_name is not None and n.value.id == fn.self_name:
+                return self.methods.get(n.attr)
+            return None
+        f = fn
+        while f is not None:
+            if n.id in f.children:
+                return f.children[n.id]
+            f = f.parent
+        return self.module_funcs.get(n.id)
+
+    def mentions_backend(self, op):
+        out = set()
+        for f in self.funcs:
+            for n in _own(f.node):
+                if isinstance(n, ast.Attribute) and n.attr == op and isinstance(n.value, ast.Attribute) and n.value.attr == 'backend':
+                    out.add(f)
+        return out
+
+    def reaches(self, targets):
+        seen, todo = set(targets), list(targets)
+        while todo:
+            for c in self.callers[todo.pop()]:
+                if c not in seen:
+                    seen.add(c)
+                    todo.append(c)
+        return seen
+
+    def closure(self, root):
+        seen, todo = {root}, [root]
+        while todo:
+            for c in self.callees[todo.pop()]:
+                if c not in seen:
+                    seen.add(c)
+                    todo.append(c)
+        return seen
+
+
+# ---------------------------------------------------------------------------------------------------------------------------
+# the symbolic executor
+class _Abort(Exception):
+    pass
+
+
+class _Return(Exception):
+    def __init__(self, value):
+        self.value = value
+
+
+class _Raise(Exception):
+    def __init__(self, name):
+        self.name = name
+
+
+class _UnknownExc(Exception):
+    def __init__(self, handler):
+        self.handler = handler
+
+
+class _Break(Exception):
+    pass
+
+
+class _Continue(Exception):
+    pass
+
+
+class _Chooser:
+    def __init__(self, prefix):
+        self.prefix, self.trail = prefix, []
+
+    def choose(self, n):
+        i = len(self.trail)
+        c = self.prefix[i] if i < len(self.prefix) else 0
+        self.trail.append((c, n))
+        return c
+
+
+class _Frame:
+    def __init__(self, fn, parent, env, static=False):
+        self.fn, self.parent, self.env, self.static = fn, parent, env, static
+        self.nonlocals = set()
+
+
+NONE, DIR, SELF, UNK = ('none',), ('dir',), ('self',), ('unknown',)
+_TRACKED = ('dir', 'entry', 'temp', 'parent', 'stream', 'dirstr')
+_PATHLIKE = ('entry', 'temp')
+_INTERESTING = _TRACKED + ('bytes', 'hash', 'listing', 'listed', 'coll', 'partial', 'lambda', 'backend', 'backendobj')
+_FNF_SUPERS = ('FileNotFoundError', 'OSError', 'IOError', 'EnvironmentError', 'Exception', 'BaseException')
+_SAFE_CALLS = ('logger.', 'logging.', 'print', 'warnings.warn')
+_PATH_CTORS = ('Path', 'pathlib.Path', 'PurePath', 'pathlib.PurePath', 'PosixPath', 'pathlib.PosixPath', 'PurePosixPath',
+               'pathlib.PurePosixPath', 'os.path.join')
+_PATH_IDS = ('str', 'os.fspath', 'os.fsencode', 'os.fsdecode', 'os.path.abspath', 'os.path.realpath', 'os.path.normpath',
+             'os.path.expanduser')
+
+
+def _literalish(n):
+    """a module-level constant worth evaluating: literals, names of other constants, tuples of those"""
+    if isinstance(n, (ast.Constant, ast.Name)):
+        return True
+    if isinstance(n, (ast.Tuple, ast.List)):
+        return all(_literalish(x) for x in n.elts)
+    if isinstance(n, ast.UnaryOp):
+        return _literalish(n.operand)
+    if isinstance(n, ast.BinOp):
+        return _literalish(n.left) and _literalish(n.right)
+    return False
+
+
+def _tracked(v):
+    if not isinstance(v, tuple) or not v:
+        return False
+    if v[0] in _TRACKED:
+        return True
+    if v[0] in ('starred', 'coll') and len(v) > 1:
+        return _tracked(v[1])
+    if v[0] == 'tuple':
+        return any(_tracked(x) for x in v[1])
+    return False
+
+
+def _uniq(v):
+    return isinstance(v, tuple) and v[0] == 'sym' and len(v) > 2 and bool(v[2])
+
+
+def _contains(v, w):
+    if v == w:
+        return True
+    return isinstance(v, tuple) and any(_contains(x, w) for x in v if isinstance(x, tuple))
+
+
+def _slot_key(s):
+    """entry / temp / parent-of → the key the path was derived from"""
+    while s[0] == 'parent':
+        s = s[1]
+    return s[1] if s[0] in _PATHLIKE else None
+
+
+def _slot_name(s):
+    return s[0] if s[0] in _PATHLIKE else ''
+
+
+class _Interp:
+    def __init__(self, ix, reach, leaky, chooser, relcache):
+        self.ix, self.reach, self.leaky, self.ch, self.relcache = ix, reach, leaky, chooser, relcache
+        self.facts, self.events, self.stack = {}, [], []
+        self.loop, self.exc_fork, self.steps = 0, False, 0
+        self.seen_dir, self.temp_unique = set(), set()
+        self.ctx = ()
+        self.cur_exc = []
+        self.static_cache = {}
+        self.static_busy = set()
+
+    # ---- bookkeeping
+    def tag(self, node, kind):
+        return '%s@%d:%d' % (kind, getattr(node, 'lineno', 0), getattr(node, 'col_offset', 0)) + ''.join('<%d:%d' % c for c in self.ctx)
+
+    def sym(self, node, kind='v', uniq=False):
+        return ('sym', self.tag(node, kind), bool(uniq))
+
+    def event(self, kind, node, **kw):
+        fr = self.stack[-1]
+        self.events.append(dict(kind=kind, node=node, site=fr.fn, stack=tuple(f.fn for f in self.stack), facts=dict(self.facts),
+                                loop=self.loop, exc=self.exc_fork, **kw))
+
+    def escape(self, node, what):
+        self.event('escape', node, what=what)
+
+    def fork(self, atom):
+        """truth value of a fact that cannot change along a path"""
+        if atom not in self.facts:
+            self.facts[atom] = self.ch.choose(2) == 0
+        return self.facts[atom]
+
+    # ---- names
+    def lookup(self, name, fr):
+        f = last = fr
+        while f is not None:
+            if name in f.env:
+                return f.env[name]
+            last, f = f, f.parent
+        if last.fn is not None and last.fn.self_name == name:
+            return SELF
+        fn = (last.fn if last.static else last.fn.parent) if last.fn is not None else None
+        while fn is not None:
+            v = self.static_name(fn, name)
+            if v is not None:
+                return v
+            fn = fn.parent
+        if name in self.ix.module_funcs:
+            return ('func', self.ix.module_funcs[name], None)
+        if name in self.ix.consts and _literalish(self.ix.consts[name]):
+            key = (None, name)
+            if key not in self.static_cache and key not in self.static_busy:
+                self.static_busy.add(key)
+                try:
+                    self.static_cache[key] = self.ev(self.ix.consts[name], _Frame(None, None, {}))
+                finally:
+                    self.static_busy.discard(key)
+            return self.static_cache.get(key, UNK)
+        return ('global', name)
+
+    def static_name(self, fn, name):
+        """a free variable of a function analysed on its own: its binding in the enclosing function `fn` (flow-insensitive; only a
+        single plain assignment is evaluated, anything else is an unknown symbol)"""
+        key = (fn, name)
+        if key in self.static_cache:
+            return self.static_cache[key]
+        if name == fn.self_name:
+            return SELF
+        if name in fn.children:
+            return ('func', fn.children[name], None)
+        if name in fn.params:
+            return ('sym', 'param:%s.%s' % (fn.qual, name), False)
+        plain, other = [], 0
+        for n in _own(fn.node):
+            if isinstance(n, ast.Assign) and any(isinstance(t, ast.Name) and t.id == name for t in n.targets):
+                plain.append(n.value)
+            elif isinstance(n, (ast.AnnAssign, ast.NamedExpr)) and isinstance(n.target, ast.Name) and n.target.id == name and n.value is not None:
+                plain.append(n.value)
+            elif isinstance(n, ast.Name) and n.id == name and isinstance(n.ctx, (ast.Store, ast.Del)):
+                other += 1
+        if not plain and not other:
+            return None
+        v = ('sym', 'outer:%s.%s' % (fn.qual, name), False)
+        if len(plain) == 1 and other == 1 and key not in self.static_busy:
+            self.static_busy.add(key)
+            try:
+                v = self.ev(plain[0], _Frame(fn, None, {}, static=True))
+            finally:
+                self.static_busy.discard(key)
+        self.static_cache[key] = v
+        return v
+
+    def peek(self, name, fr):
+        """like `lookup`, but never evaluates anything"""
+        f = last = fr
+        while f is not None:
+            if name in f.env:
+                return f.env[name]
+            last, f = f, f.parent
+        fn = (last.fn if last.static else last.fn.parent) if last.fn is not None else None
+        while fn is not None:
+            if (fn, name) in self.static_cache:
+                return self.static_cache[(fn, name)]
+            if name in fn.children:
+                return ('func', fn.children[name], None)
+            fn = fn.parent
+        if name in self.ix.module_funcs:
+            return ('func', self.ix.module_funcs[name], None)
+        return UNK
+
+    def assign_name(self, name, v, fr):
+        f = fr
+        if name in fr.nonlocals:
+            f = fr.parent
+            while f is not None and name not in f.env:
+                f = f.parent
+            f = f or fr
+        f.env[name] = v
+
+    def assign(self, target, v, fr, node):
+        if isinstance(target, ast.Name):
+            return self.assign_name(target.id, v, fr)
+        if isinstance(target, (ast.Tuple, ast.List)):
+            vals = v[1] if v[0] == 'tuple' and len(v[1]) == len(target.elts) and not any(isinstance(t, ast.Starred) for t in target.elts) else None
+            for i, t in enumerate(target.elts):
+                t2 = t.value if isinstance(t, ast.Starred) else t
+                self.assign(t2, vals[i] if vals is not None else ('sym', self.tag(t2, 'unpack%d' % i), False), fr, node)
+            return None
+        if isinstance(target, ast.Attribute):
+            base = self.ev(target.value, fr)
+            if base == SELF and target.attr in self.ix.cdir:
+                self.seen_dir.add(id(target))
+                return self.event('init' if fr.fn in self.ix.init_fns else 'rebind', node)
+            if _tracked(v):
+                self.escape(node, 'stored into an attribute')
+            return None
+        if isinstance(target, ast.Subscript):
+            self.ev(target.value, fr)
+            self.ev(target.slice, fr)
+            if _tracked(v):
+                self.escape(node, 'stored into a container')
+        return None
+
+    # ---- conditions
+    def none_test(self, v, node):
+        """is `v` None?"""
+        k = v[0]
+        if k == 'none':
+            return True
+        if k == 'dir':
+            self.event('test', node)
+            return not self.fork(('enabled',))
+        if k in ('sym', 'listed'):
+            return self.fork(('isnone', v))
+        if k in ('unknown', 'global', 'selfattr'):
+            return self.ch.choose(2) == 1
+        return False
+
+    def eq_test(self, a, b, node):
+        if a[0] == 'none' or b[0] == 'none':
+            return self.none_test(b if a[0] == 'none' else a, node)
+        if a[0] == 'const' and b[0] == 'const':
+            try:
+                return a[1] == b[1]
+            except Exception:  # noqa: BLE001
+                return self.ch.choose(2) == 0
+        known = lambda v: not _contains(v, UNK) and v[0] != 'global'  # noqa: E731
+        if a == b and known(a):
+            return True
+        if known(a) and known(b) and (a[0] == 'hash' or b[0] == 'hash'):
+            return self.fork(('eq',) + tuple(sorted((a, b), key=repr)))
+        return self.ch.choose(2) == 0
+
+    def truthy(self, v, node):
+        k = v[0]
+        if k == 'none':
+            return False
+        if k == 'const':
+            return bool(v[1])
+        if k == 'dir':
+            self.event('test', node)
+            return self.fork(('enabled',))
+        if k in ('entry', 'temp', 'parent', 'stream', 'func', 'method', 'lambda', 'partial', 'backend', 'backendobj', 'hash'):
+            return True
+        return self.ch.choose(2) == 0
+
+    def cond(self, e, fr):
+        if isinstance(e, ast.BoolOp):
+            if isinstance(e.op, ast.And):
+                return all(self.cond(x, fr) for x in e.values)
+            return any(self.cond(x, fr) for x in e.values)
+        if isinstance(e, ast.UnaryOp) and isinstance(e.op, ast.Not):
+            return not self.cond(e.operand, fr)
+        if isinstance(e, ast.Compare):
+            left = self.ev(e.left, fr)
+            res = True
+            for op, right_e in zip(e.ops, e.comparators):
+                right = self.ev(right_e, fr)
+                if not res:
+                    continue
+                if isinstance(op, (ast.Is, ast.Eq)):
+                    r = self.none_test(left, e) if right[0] == 'none' and isinstance(op, ast.Is) else self.eq_test(left, right, e)
+                elif isinstance(op, (ast.IsNot, ast.NotEq)):
+                    r = not (self.none_test(left, e) if right[0] == 'none' and isinstance(op, ast.IsNot) else self.eq_test(left, right, e))
+                else:
+                    if _tracked(left) or _tracked(right):
+                        self.escape(e, 'compared')
+                    r = self.ch.choose(2) == 0
+                res = res and r
+                left = right
+            return res
+        if isinstance(e, ast.Constant):
+            return bool(e.value)
+        return self.truthy(self.ev(e, fr), e)
+
+    # ---- expressions
+    def ev(self, e, fr):
+        self.steps += 1
+        if self.steps > _MAX_STEPS:
+            raise _Abort('too many steps')
+        m = getattr(self, 'ev_' + type(e).__name__, None)
+        if m is not None:
+            return m(e, fr)
+        # generic: evaluate the sub-expressions for their events, result is a symbol
+        uq = False
+        for ch in ast.iter_child_nodes(e):
+            if isinstance(ch, ast.expr):
+                v = self.ev(ch, fr)
+                uq = uq or _uniq(v)
+                if _tracked(v) and not isinstance(e, (ast.JoinedStr, ast.FormattedValue)):
+                    self.escape(e, 'used in ' + type(e).__name__)
+            elif isinstance(ch, ast.comprehension):
+                raise _Abort('comprehension inside ' + type(e).__name__)
+        return self.sym(e, 'x', uq)
+
+    def ev_Constant(self, e, fr):
+        return NONE if e.value is None else ('const', e.value)
+
+    def ev_Name(self, e, fr):
+        return self.lookup(e.id, fr)
+
+    def ev_JoinedStr(self, e, fr):
+        uq, vals = False, []
+        for ch in e.values:
+            v = self.ev(ch.value, fr) if isinstance(ch, ast.FormattedValue) else ('const', ch.value)
+            vals.append(v)
+            uq = _uniq(v) or uq
+        if not any(_tracked(v) for v in vals):
+            return self.sym(e, 's', uq)
+        # f'{directory}/{key}' is the entry of key; f'{entry}.suffix' a sibling of the entry; anything else: a string that carries the
+        # directory (harmless in a log message, an escape anywhere else)
+        if len(vals) == 3 and vals[0][0] == 'dir' and vals[1] in (('const', '/'), ('const', os.sep)) and not _tracked(vals[2]):
+            return ('entry', vals[2])
+        if vals[0][0] in _PATHLIKE and not any(_tracked(v) for v in vals[1:]):
+            return self.derived(vals[0], e, uq)
+        return ('dirstr',)
+
+    def ev_Await(self, e, fr):
+        return self.ev(e.value, fr)
+
+    def ev_Starred(self, e, fr):
+        return ('starred', self.ev(e.value, fr))
+
+    def ev_Tuple(self, e, fr):
+        return ('tuple', tuple(self.ev(x, fr) for x in e.elts))
+
+    ev_List = ev_Tuple
+
+    def ev_Lambda(self, e, fr):
+        return ('lambda', e, fr)
+
+    def ev_NamedExpr(self, e, fr):
+        v = self.ev(e.value, fr)
+        self.assign(e.target, v, fr, e)
+        return v
+
+    def ev_IfExp(self, e, fr):
+        return self.ev(e.body, fr) if self.cond(e.test, fr) else self.ev(e.orelse, fr)
+
+    def ev_Compare(self, e, fr):
+        return ('const', self.cond(e, fr))
+
+    def ev_UnaryOp(self, e, fr):
+        if isinstance(e.op, ast.Not):
+            return ('const', not self.cond(e.operand, fr))
+        self.ev(e.operand, fr)
+        return self.sym(e)
+
+    def ev_BoolOp(self, e, fr):
+        v = NONE
+        for i, x in enumerate(e.values):
+            v = self.ev(x, fr)
+            if i == len(e.values) - 1:
+                break
+            t = self.truthy(v, x)
+            if t != isinstance(e.op, ast.And):
+                break
+        return v
+
+    def ev_Yield(self, e, fr):
+        if e.value is not None:
+            v = self.ev(e.value, fr)
+            if _tracked(v):
+                self.escape(e, 'yielded')
+        return self.sym(e)
+
+    def ev_Attribute(self, e, fr):
+        return self.attr_of(self.ev(e.value, fr), e, fr)
+
+    def attr_of(self, base, e, fr):
+        a = e.attr
+        if a == 'hash_digest':
+            return ('hashfn',)
+        if base == SELF:
+            if a in self.ix.cdir:
+                self.seen_dir.add(id(e))
+                return DIR
+            if a == 'backend':
+                return ('backendobj',)
+            if a in self.ix.methods:
+                m = self.ix.methods[a]
+                return self.invoke(e, ('method', m), [], {}, fr) if m.is_property else ('method', m)
+            if a.isupper():
+                return ('clsconst', a)
+            return ('selfattr', a)
+        if a in self.ix.cdir and isinstance(e.value, ast.Name):
+            self.seen_dir.add(id(e))
+            self.escape(e, 'directory of another object')
+            return UNK
+        k = base[0]
+        if k == 'backendobj':
+            return ('backend', a)
+        if k in _PATHLIKE or k == 'parent':
+            if a == 'parent':
+                return ('parent', base)
+            return self.sym(e, 'part')
+        if k == 'dir':
+            if a in ('name', 'stem', 'suffix', 'parts'):
+                return self.sym(e, 'part')
+            return ('dirattr', a)
+        if k == 'global':
+            return ('global', base[1] + '.' + a)
+        if k == 'stream':
+            return ('streamattr', base, a)
+        return self.sym(e, 'attr', _uniq(base))
+
+    def ev_BinOp(self, e, fr):
+        left, right = self.ev(e.left, fr), self.ev(e.right, fr)
+        if isinstance(e.op, ast.Div):
+            if left[0] == 'dir':
+                return ('entry', right)
+            if left[0] == 'parent' and left[1][0] in _PATHLIKE:
+                return self.derived(left[1], e, _uniq(right))
+            if left[0] in _PATHLIKE:
+                self.escape(e, 'path below a cache entry')
+                return self.sym(e)
+        if isinstance(e.op, ast.Add) and left[0] in _PATHLIKE:
+            return self.derived(left, e, _uniq(right))
+        if _tracked(left) or _tracked(right):
+            self.escape(e, 'arithmetic on a cache path')
+        return self.sym(e, 'x', _uniq(left) or _uniq(right))
+
+    def derived(self, slot, e, uq):
+        """a sibling of an entry: the temporary of a store"""
+        text = ast.unparse(e)
+        self.temp_unique.add(bool(uq) or any(h in text for h in _UNIQUE_HINTS))
+        return ('temp', _slot_key(slot))
+
+    def comp(self, e, fr, elts):
+        inner = _Frame(fr.fn, fr, {})
+        self.loop += 1
+        try:
+            for g in e.generators:
+                it = self.ev(g.iter, inner if g is not e.generators[0] else fr)
+                self.assign(g.target, self.elem(it, g.target), inner, e)
+                for c in g.ifs:
+                    self.cond(c, inner)
+            return [self.ev(x, inner) for x in elts]
+        finally:
+            self.loop -= 1
+
+    def ev_ListComp(self, e, fr):
+        return ('coll', self.comp(e, fr, [e.elt])[0])
+
+    ev_SetComp = ev_GeneratorExp = ev_ListComp
+
+    def ev_DictComp(self, e, fr):
+        k, v = self.comp(e, fr, [e.key, e.value])
+        return ('coll', ('tuple', (k, v)))
+
+    def elem(self, it, node):
+        if it[0] == 'listing':
+            return ('listed', self.tag(node, 'listed')) if it[1] == ('clsconst', 'SNAPSHOT_PREFIX') else ('sym', self.tag(node, 'otherlisting'), False)
+        if it[0] == 'coll':
+            return it[1]
+        if _tracked(it):
+            self.escape(node, 'iterated')
+        return ('sym', self.tag(node, 'elem'), False)
+
+    # ---- calls
+    def kwconst(self, e, kwargs, name, default):
+        v = kwargs.get(name)
+        if v is None:
+            return default
+        if v[0] == 'none':
+            return None
+        if v[0] == 'const':
+            return v[1]
+        raise _Abort('%s= is not a constant in %s' % (name, ast.unparse(e)[:60]))
+
+    def ev_Call(self, e, fr):
+        f = e.func
+        recv = None
+        if isinstance(f, ast.Attribute):
+            recv = self.ev(f.value, fr)
+            fval = self.attr_of(recv, f, fr)
+        else:
+            fval = self.ev(f, fr)
+        args = [self.ev(a, fr) for a in e.args]
+        kwargs = {k.arg: self.ev(k.value, fr) for k in e.keywords}
+        fname = fval[1] if fval[0] == 'global' else None
+        attr = f.attr if isinstance(f, ast.Attribute) else None
+        allv = args + list(kwargs.values())
+        if fval[0] == 'hashfn':
+            return ('hash', args[0] if args else UNK)
+        if fname is not None and fname.endswith('compare_digest') and len(args) == 2:
+            return ('const', self.eq_test(args[0], args[1], e))
+        # --- backend operations (directly or handed to a wrapper together with their argument)
+        if fval[0] == 'backend':
+            return self.backend_op(e, fval[1], args[0] if args else kwargs.get('prefix', UNK))
+        for i, a in enumerate(args):
+            if a[0] == 'backend':
+                return self.backend_op(e, a[1], args[i + 1] if i + 1 < len(args) else kwargs.get('prefix', UNK))
+        # --- paths
+        if fname in _PATH_CTORS and args:
+            a0 = args[0]
+            if a0[0] == 'dir':
+                if len(args) == 1:
+                    return DIR
+                return ('entry', args[1] if len(args) == 2 else ('join', tuple(args[1:])))
+            if a0[0] in _PATHLIKE + ('parent',):
+                if len(args) == 1:
+                    return a0
+                if a0[0] == 'parent' and a0[1][0] in _PATHLIKE:
+                    return self.derived(a0[1], e, any(_uniq(x) for x in args[1:]))
+                self.escape(e, 'path below a cache entry')
+                return self.sym(e)
+            if any(_tracked(a) for a in allv):
+                self.escape(e, 'cache path inside another path')
+            return self.sym(e)
+        if fname in _PATH_IDS and args and _tracked(args[0]):
+            return args[0]
+        if fname == 'os.path.dirname' and args and args[0][0] in _PATHLIKE:
+            return ('parent', args[0])
+        if fname in ('open', 'io.open') and args and _tracked(args[0]):
+            return self.do_open(e, args[0], args[1] if len(args) > 1 else kwargs.get('mode'))
+        if fname in ('os.unlink', 'os.remove') and args and _tracked(args[0]):
+            return self.do_unlink(e, args[0], False)
+        if fname in ('os.replace', 'os.rename') and len(args) == 2 and (_tracked(args[0]) or _tracked(args[1])):
+            return self.do_rename(e, args[0], args[1])
+        if fname in ('os.makedirs', 'os.mkdir') and args and _tracked(args[0]):
+            return self.do_mkdir(e, args[0], fname == 'os.makedirs', self.kwconst(e, kwargs, 'exist_ok', False) is True)
+        if fname in ('os.path.exists', 'os.path.isfile', 'os.path.lexists') and args and args[0][0] in _PATHLIKE:
+            return ('const', self.present(e, args[0]))
+        if fname in ('os.fsync', 'os.fdatasync'):
+            return NONE
+        # --- methods of tracked values
+        if recv is not None and recv[0] in _TRACKED:
+            return self.tracked_method(e, recv, attr, args, kwargs)
+        # --- handing a callable to an executor / the event loop / functools
+        if attr == 'run_in_executor' and len(args) >= 2:
+            return self.submit(e, args[1], args[2:], {}, fr)
+        if fname == 'asyncio.to_thread' and args:
+            return self.submit(e, args[0], args[1:], kwargs, fr)
+        if attr == 'submit' and args and args[0][0] in ('func', 'method', 'lambda', 'partial'):
+            return self.submit(e, args[0], args[1:], kwargs, fr)
+        if fname in ('functools.partial', 'partial') and args:
+            return ('partial', args[0], tuple(args[1:]), tuple(sorted(kwargs.items(), key=lambda kv: str(kv[0]))))
+        if (fname == 'map' or attr == 'map') and len(args) >= 2 and args[0][0] in ('func', 'method', 'lambda', 'partial'):
+            self.loop += 1
+            try:
+                return ('coll', self.invoke(e, args[0], [self.elem(a, e) for a in args[1:]], {}, fr))
+            finally:
+                self.loop -= 1
+        if fval[0] in ('func', 'method', 'lambda', 'partial'):
+            return self.invoke(e, fval, args, kwargs, fr)
+        if fname in ('list', 'tuple', 'set', 'frozenset', 'sorted', 'reversed', 'iter') and len(args) >= 1 and args[0][0] in ('coll', 'listing'):
+            return args[0]
+        if fname is not None and fname.startswith(_SAFE_CALLS):
+            return NONE
+        if any(_tracked(a) for a in allv):
+            self.escape(e, 'passed to ' + ast.unparse(f)[:40])
+        for a in allv:
+            if a[0] == 'bytes':
+                self.event('consume', e, data=a)
+        text = fname or ast.unparse(f)
+        return self.sym(e, 'call', any(h in text for h in _UNIQUE_HINTS) or any(_uniq(a) for a in allv))
+
+    def backend_op(self, e, op, key):
+        self.event('b' + op, e, key=key)
+        if op == 'download':
+            return ('bytes', 'download', key, self.tag(e, 'dl'))
+        if op == 'list_files':
+            return ('listing', key)
+        return self.sym(e, 'backend')
+
+    def submit(self, e, fval, args, kwargs, fr):
+        self.event('submit', e, callee=fval, args=tuple(args))
+        return self.invoke(e, fval, list(args), kwargs, fr)
+
+    def present(self, e, slot):
+        self.event('test', e)
+        return self.fork(('present', slot))
+
+    def do_open(self, e, slot, mode):
+        if slot[0] not in _PATHLIKE:
+            self.escape(e, 'opened')
+            return self.sym(e)
+        if mode is None:
+            mode = ('const', 'r')
+        if not (mode[0] == 'const' and isinstance(mode[1], str)):
+            raise _Abort('open mode is not a constant')
+        m = mode[1].replace('b', '').replace('t', '')
+        if m == 'r':
+            self.do_read(e, slot)
+            return ('stream', slot, 'r')
+        if m not in ('w', 'x'):
+            raise _Abort('open mode %r' % mode[1])
+        self.event('create', e, slot=slot, flag=(m == 'x'))
+        self.facts[('present', slot)] = True
+        return ('stream', slot, 'w')
+
+    def do_read(self, e, slot):
+        self.event('read', e, slot=slot)
+        if not self.fork(('present', slot)):
+            raise _Raise('FileNotFoundError')
+        return ('bytes', 'cache', _slot_key(slot), self.tag(e, 'rd'))
+
+    def do_unlink(self, e, slot, missing_ok):
+        if slot[0] not in _PATHLIKE:
+            self.escape(e, 'unlinked')
+            return NONE
+        self.event('unlink', e, slot=slot, flag=missing_ok)
+        if not missing_ok and not self.fork(('present', slot)):
+            raise _Raise('FileNotFoundError')
+        self.facts[('present', slot)] = False
+        return NONE
+
+    def do_rename(self, e, a, b):
+        if a[0] not in _PATHLIKE or b[0] not in _PATHLIKE:
+            self.escape(e, 'renamed')
+            return NONE
+        self.event('rename', e, slot=a, slot2=b)
+        self.facts[('present', a)] = False
+        self.facts[('present', b)] = True
+        return b
+
+    def do_mkdir(self, e, d, parents, exist_ok):
+        if d[0] != 'parent' or d[1][0] not in _PATHLIKE:
+            self.escape(e, 'mkdir of something else than the parent of an entry')
+            return NONE
+        if not parents:
+            raise _Abort('mkdir without parents=True')
+        self.event('mkdir', e, slot=d, flag=exist_ok)
+        return NONE
+
+    def tracked_method(self, e, recv, attr, args, kwargs):
+        k = recv[0]
+        if k == 'dir':
+            if attr == 'joinpath' and args:
+                return ('entry', args[0] if len(args) == 1 else ('join', tuple(args)))
+            if attr in ('resolve', 'absolute', 'expanduser'):
+                return recv
+            self.escape(e, 'directory.%s()' % attr)
+            return self.sym(e)
+        if k in _PATHLIKE:
+            if attr in ('read_bytes', 'read_text'):
+                return self.do_read(e, recv)
+            if attr == 'open':
+                return self.do_open(e, recv, args[0] if args else kwargs.get('mode'))
+            if attr in ('write_bytes', 'write_text'):
+                self.event('create', e, slot=recv, flag=False)
+                self.event('write', e, slot=recv, data=args[0] if args else UNK)
+                self.facts[('present', recv)] = True
+                return self.sym(e)
+            if attr in ('replace', 'rename') and args:
+                return self.do_rename(e, recv, args[0])
+            if attr == 'unlink':
+                return self.do_unlink(e, recv, self.kwconst(e, kwargs, 'missing_ok', False) is True)
+            if attr in ('exists', 'is_file'):
+                return ('const', self.present(e, recv))
+            if attr in ('with_name', 'with_suffix', 'with_stem'):
+                return self.derived(recv, e, any(_uniq(a) for a in args))
+            if attr in ('resolve', 'absolute', 'expanduser', '__fspath__', 'as_posix'):
+                return recv
+            if attr == 'stat':
+                self.event('test', e)
+                return self.sym(e)
+            self.escape(e, 'entry.%s()' % attr)
+            return self.sym(e)
+        if k == 'parent':
+            if attr == 'mkdir':
+                return self.do_mkdir(e, recv, self.kwconst(e, kwargs, 'parents', False) is True, self.kwconst(e, kwargs, 'exist_ok', False) is True)
+            if attr == 'joinpath' and args and recv[1][0] in _PATHLIKE:
+                return self.derived(recv[1], e, any(_uniq(a) for a in args))
+            if attr in ('exists', 'is_dir'):
+                self.event('test', e)
+                return self.sym(e)
+            self.escape(e, 'parent.%s()' % attr)
+            return self.sym(e)
+        # stream
+        if attr == 'write' and recv[2] == 'w':
+            self.event('write', e, slot=recv[1], data=args[0] if args else UNK)
+            return self.sym(e)
+        if attr == 'read' and recv[2] == 'r' and not args:
+            return ('bytes', 'cache', _slot_key(recv[1]), self.tag(e, 'rd'))
+        if attr in ('flush', 'close', 'fileno', '__enter__', '__exit__'):
+            return recv if attr == '__enter__' else NONE
+        self.escape(e, 'stream.%s()' % attr)
+        return self.sym(e)
+
+    def invoke(self, e, fval, args, kwargs, fr):
+        k = fval[0]
+        if k == 'partial':
+            kw = dict(fval[3])
+            kw.update(kwargs)
+            return self.invoke(e, fval[1], list(fval[2]) + list(args), kw, fr)
+        if k == 'lambda':
+            node, dfr = fval[1], fval[2]
+            env = self.bind(node.args, None, args, kwargs, e, dfr)
+            if len(self.stack) >= _MAX_DEPTH:
+                raise _Abort('depth')
+            return self.ev(node.body, _Frame(dfr.fn, dfr, env))
+        if k not in ('func', 'method'):
+            if any(_tracked(a) for a in list(args) + list(kwargs.values())):
+                self.escape(e, 'passed to an unknown callable')
+            return self.sym(e, 'call')
+        fn = fval[1]
+        allv = list(args) + list(kwargs.values())
+        wanted = fn in self.reach or fn in self.leaky or any(_tracked(a) for a in allv)
+        if fn.is_gen or not wanted or any(f.fn is fn for f in self.stack):
+            if any(_tracked(a) for a in allv):
+                self.escape(e, 'passed to ' + fn.qual)
+            for a in allv:
+                if a[0] == 'bytes':
+                    self.event('consume', e, data=a)
+            return self.sym(e, 'call')
+        if len(self.stack) >= _MAX_DEPTH:
+            raise _Abort('depth')
+        dfr = fval[2] if k == 'func' else None
+        env = self.bind(fn.node.args, fn.self_name if (k == 'method' and fn.cls) else None, args, kwargs, e, dfr)
+        new = _Frame(fn, dfr, env)
+        saved = self.ctx
+        self.ctx = self.ctx + ((getattr(e, 'lineno', 0), getattr(e, 'col_offset', 0)),)
+        self.stack.append(new)
+        try:
+            self.block(fn.node.body, new)
+            return NONE
+        except _Return as r:
+            return r.value
+        finally:
+            self.stack.pop()
+            self.ctx = saved
+
+    def bind(self, a, self_name, args, kwargs, e, dfr=None):
+        names = [x.arg for x in a.posonlyargs + a.args]
+        env = {}
+        if self_name is not None and names and names[0] == self_name:
+            env[self_name] = SELF
+            names = names[1:]
+        flat, exact = [], True
+        for v in args:
+            if v[0] == 'starred':
+                if v[1][0] == 'tuple':
+                    flat.extend(v[1][1])
+                else:
+                    exact = False
+                    if _tracked(v):
+                        self.escape(e, 'passed as *args')
+            else:
+                flat.append(v) if exact else None
+        for n, v in zip(names, flat):
+            env[n] = v
+        if a.vararg is not None:
+            rest = flat[len(names):]
+            env[a.vararg.arg] = ('tuple', tuple(rest)) if exact else ('sym', self.tag(e, 'varargs'), False)
+        for k, v in kwargs.items():
+            if k is None:
+                if _tracked(v):
+                    self.escape(e, 'passed as **kwargs')
+            elif k in names or k in [x.arg for x in a.kwonlyargs]:
+                env[k] = v
+            elif _tracked(v):
+                self.escape(e, 'passed as an unknown keyword')
+        defaults = dict(zip(names[len(names) - len(a.defaults):], a.defaults)) if a.defaults else {}
+        for x, d in zip(a.kwonlyargs, a.kw_defaults):
+            if d is not None:
+                defaults[x.arg] = d
+        for n in names + [x.arg for x in a.kwonlyargs]:
+            if n not in env:
+                d = defaults.get(n)
+                if isinstance(d, ast.Constant):
+                    env[n] = self.ev(d, _Frame(None, None, {}))
+                elif d is not None and dfr is not None:
+                    env[n] = self.ev(d, dfr)        # (evaluated when the function is called, not when it was defined: an approximation)
+                else:
+                    env[n] = ('sym', self.tag(e, 'arg:' + n), False)
+        if a.kwarg is not None:
+            env[a.kwarg.arg] = ('sym', self.tag(e, 'kwargs'), False)
+        return env
+
+    # ---- statements
+    def static_rel(self, st, fn, in_loop_stmt):
+        """does the compound statement `st` contain anything the analysis has to look at (apart from tracked variables)?"""
+        for n in ast.walk(st):
+            if isinstance(n, (ast.Return, ast.Raise, ast.Global, ast.Nonlocal) + _FUNC):
+                return True
+            if isinstance(n, (ast.Break, ast.Continue)) and not in_loop_stmt:
+                return True
+            if isinstance(n, ast.Attribute):
+                if id(n) in self.ix.dir_nodes or n.attr in ('backend', 'hash_digest'):
+                    return True
+            if isinstance(n, (ast.Name, ast.Attribute)) and isinstance(n.ctx, ast.Load) and fn is not None:
+                g = self.ix.resolve(fn, n)
+                if g is not None and (g in self.reach or g in self.leaky):
+                    return True
+        return False
+
+    def relevant(self, st, fr):
+        c = self.relcache.get(id(st))
+        if c is None:
+            c = self.relcache[id(st)] = self.static_rel(st, fr.fn, isinstance(st, (ast.For, ast.AsyncFor, ast.While)))
+        if c:
+            return True
+        for n in ast.walk(st):
+            if isinstance(n, ast.Name) and isinstance(n.ctx, ast.Load):
+                v = self.peek(n.id, fr)
+                if v[0] in _INTERESTING or (v[0] in ('func', 'method') and (v[1] in self.reach or v[1] in self.leaky)):
+                    return True
+        return False
+
+    def skip(self, st, fr):
+        for n in ast.walk(st):
+            if isinstance(n, ast.Name) and isinstance(n.ctx, ast.Store):
+                self.assign_name(n.id, ('sym', self.tag(n, 'skipped'), False), fr)
+
+    def block(self, stmts, fr):
+        for st in stmts:
+            self.stmt(st, fr)
+
+    def stmt(self, st, fr):
+        self.steps += 1
+        if self.steps > _MAX_STEPS:
+            raise _Abort('too many steps')
+        if isinstance(st, (ast.If, ast.For, ast.AsyncFor, ast.While, ast.Try, ast.With, ast.AsyncWith)) and not self.relevant(st, fr):
+            return self.skip(st, fr)
+        m = getattr(self, 'st_' + type(st).__name__, None)
+        if m is None:
+            if isinstance(st, (ast.Pass, ast.Import, ast.ImportFrom, ast.Global, ast.ClassDef)):
+                return None
+            raise _Abort('statement ' + type(st).__name__)
+        return m(st, fr)
+
+    def st_Expr(self, st, fr):
+        self.ev(st.value, fr)
+
+    def st_Assign(self, st, fr):
+        v = self.ev(st.value, fr)
+        for t in st.targets:
+            self.assign(t, v, fr, st)
+
+    def st_AnnAssign(self, st, fr):
+        if st.value is not None:
+            self.assign(st.target, self.ev(st.value, fr), fr, st)
+
+    def st_AugAssign(self, st, fr):
+        v = self.ev(st.value, fr)
+        if _tracked(v):
+            self.escape(st, 'augmented assignment')
+        if isinstance(st.target, ast.Name):
+            old = self.lookup(st.target.id, fr)
+            if _tracked(old):
+                self.escape(st, 'augmented assignment')
+            self.assign_name(st.target.id, self.sym(st, 'aug', _uniq(v) or _uniq(old)), fr)
+        else:
+            self.ev(st.target.value, fr)
+
+    def st_Delete(self, st, fr):
+        for t in st.targets:
+            if isinstance(t, ast.Name):
+                self.assign_name(t.id, UNK, fr)
+
+    def st_Nonlocal(self, st, fr):
+        fr.nonlocals.update(st.names)
+
+    def st_FunctionDef(self, st, fr):
+        fn = fr.fn.children.get(st.name) if fr.fn is not None else None
+        self.assign_name(st.name, ('func', fn, fr) if fn is not None else UNK, fr)
+
+    st_AsyncFunctionDef = st_FunctionDef
+
+    def st_Return(self, st, fr):
+        raise _Return(self.ev(st.value, fr) if st.value is not None else NONE)
+
+    def st_Assert(self, st, fr):
+        if not self.cond(st.test, fr):
+            raise _Raise('AssertionError')
+
+    def st_Raise(self, st, fr):
+        if st.exc is None:
+            raise _Raise(self.cur_exc[-1] if self.cur_exc else '?')
+        x = st.exc.func if isinstance(st.exc, ast.Call) else st.exc
+        v = self.lookup(x.id, fr) if isinstance(x, ast.Name) else None
+        if v is not None and v[0] == 'exc':
+            raise _Raise(v[1])
+        if isinstance(st.exc, ast.Call):
+            for a in st.exc.args:
+                self.ev(a, fr)
+        raise _Raise(ast.unparse(x).split('.')[-1] if isinstance(x, (ast.Name, ast.Attribute)) else '?')
+
+    def st_If(self, st, fr):
+        self.block(st.body if self.cond(st.test, fr) else st.orelse, fr)
+
+    def st_With(self, st, fr):
+        swallow = []
+        for it in st.items:
+            c = it.context_expr
+            if isinstance(c, ast.Call) and ast.unparse(c.func) in ('contextlib.suppress', 'suppress'):
+                swallow.append(ast.ExceptHandler(type=ast.Tuple(elts=list(c.args), ctx=ast.Load()), name=None, body=[]))
+                continue
+            v = self.ev(c, fr)
+            if it.optional_vars is not None:
+                self.assign(it.optional_vars, v if v[0] == 'stream' else self.sym(c, 'ctx'), fr, st)
+        if not swallow:
+            return self.block(st.body, fr)
+        try:                                # `with suppress(E): body`  ==  `try: body  except E: pass`
+            for s in st.body:
+                if self.may_raise(s) and self.ch.choose(2):
+                    self.exc_fork = True
+                    return None
+                self.stmt(s, fr)
+        except _Raise as r:
+            if not any(self.catches(h, r.name) for h in swallow):
+                raise
+        return None
+
+    st_AsyncWith = st_With
+
+    def loop_body(self, st, fr):
+        self.loop += 1
+        try:
+            self.block(st.body, fr)
+        except _Continue:
+            pass
+        except _Break:
+            return True
+        finally:
+            self.loop -= 1
+        return False
+
+    def st_For(self, st, fr):
+        it = self.ev(st.iter, fr)
+        broke = False
+        if self.ch.choose(2) == 0:
+            self.assign(st.target, self.elem(it, st.target), fr, st)
+            broke = self.loop_body(st, fr)
+        if not broke:
+            self.block(st.orelse, fr)
+
+    st_AsyncFor = st_For
+
+    def st_While(self, st, fr):
+        broke = False
+        if self.cond(st.test, fr):
+            broke = self.loop_body(st, fr)
+        if not broke:
+            self.block(st.orelse, fr)
+
+    def st_Break(self, st, fr):
+        raise _Break()
+
+    def st_Continue(self, st, fr):
+        raise _Continue()
+
+    def catches(self, h, name):
+        if h.type is None:
+            return True
+        types = h.type.elts if isinstance(h.type, ast.Tuple) else [h.type]
+        names = [ast.unparse(t).split('.')[-1] for t in types]
+        if 'BaseException' in names:
+            return True
+        if name == '?':
+            return self.ch.choose(2) == 0
+        if 'Exception' in names:
+            return True
+        if name == 'FileNotFoundError':
+            return any(n in _FNF_SUPERS for n in names)
+        if name in names:
+            return True
+        if name == 'AssertionError':
+            return False
+        return self.ch.choose(2) == 0      # an exception class whose ancestors are not known here
+
+    def may_raise(self, st):
+        for n in ast.walk(st):
+            if isinstance(n, ast.Call) and not ast.unparse(n.func).startswith(_SAFE_CALLS):
+                return True
+        return False
+
+    def handler(self, h, name, fr):
+        if h.name:
+            self.assign_name(h.name, ('exc', name), fr)
+        self.cur_exc.append(name)
+        try:
+            self.block(h.body, fr)
+        finally:
+            self.cur_exc.pop()
+
+    def st_Try(self, st, fr):
+        try:
+            try:
+                for s in st.body:
+                    if st.handlers and self.may_raise(s):
+                        c = self.ch.choose(1 + len(st.handlers))
+                        if c:
+                            self.exc_fork = True
+                            raise _UnknownExc(c - 1)
+                    self.stmt(s, fr)
+            except _Raise as r:
+                for h in st.handlers:
+                    if self.catches(h, r.name):
+                        break
+                else:
+                    raise
+                self.handler(h, r.name, fr)
+            except _UnknownExc as u:
+                if u.handler >= len(st.handlers):
+                    raise _Abort('exception bookkeeping')
+                self.handler(st.handlers[u.handler], '?', fr)
+            else:
+                self.block(st.orelse, fr)
+        except (_Return, _Raise, _Break, _Continue):
+            self.block(st.finalbody, fr)
+            raise
+        self.block(st.finalbody, fr)
+
+    st_TryStar = st_Try
+
+    # ---- a whole function, on symbolic arguments
+    def run_root(self, fn):
+        env = {p: ('sym', 'param:%s.%s' % (fn.qual, p), False) for p in fn.params}
+        if fn.self_name is not None and fn.self_name in env:
+            env[fn.self_name] = SELF
+        for p in self.ix.init_fns.get(fn, ()):
+            if p in env:
+                env[p] = DIR
+        fr = _Frame(fn, None, env)
+        self.stack.append(fr)
+        try:
+            self.block(fn.node.body, fr)
+            end = ('fall', NONE)
+        except _Return as r:
+            end = ('return', r.value)
+        except _Raise as r:
+            end = ('raise', r.name)
+        except (_Break, _Continue, _UnknownExc):
+            raise _Abort('stray control flow')
+        finally:
+            self.stack.pop()
+        return dict(events=self.events, facts=self.facts, end=end, seen=self.seen_dir, exc=self.exc_fork, uniq=self.temp_unique)
+
+
+def _paths(ix, fn, targets, leaky):
+    """every path through `fn` (helpers that reach `targets` inlined) → list of path records, or a string (why it was given up)"""
+    reach = ix.reaches(targets) if targets else set()
+    out, todo, relcache = [], [[]], {}
+    try:
+        while todo:
+            prefix = todo.pop()
+            ch = _Chooser(prefix)
+            out.append(_Interp(ix, reach, leaky, ch, relcache).run_root(fn))
+            for i in range(len(prefix), len(ch.trail)):
+                for alt in range(1, ch.trail[i][1]):
+                    todo.append([t[0] for t in ch.trail[:i]] + [alt])
+            if len(out) + len(todo) > _MAX_PATHS:
+                return 'too many paths'
+    except _Abort as a:
+        return str(a) or 'aborted'
+    except RecursionError:
+        return 'recursion'
+    return out
+
+
+# ---------------------------------------------------------------------------------------------------------------------------
+# the facts
+_STORE_KINDS = ('mkdir', 'create', 'write', 'rename')
+
+
+def _role(ev):
+    k = ev['kind']
+    if k == 'read':
+        return 'read'
+    if k in _STORE_KINDS:
+        return 'store'
+    if k == 'unlink':
+        return 'evict' if ev['slot'][0] == 'entry' else 'store'
+    if k in ('test', 'init'):
+        return k
+    if k == 'rebind':
+        return 'rebind:' + ev['site'].qual
+    if k == 'escape':
+        return 'escape:' + ev['site'].qual
+    return None
+
+
+def _is_cache_op(ev):
+    return ev['kind'] in ('read', 'unlink') + _STORE_KINDS
+
+
+def _plan_of(path):
+    """the file-system operations of one path, as rows of `cacheStorePlanRaw`"""
+    rows = []
+    for ev in path['events']:
+        k = ev['kind']
+        if k == 'mkdir':
+            rows.append(('mkdir', '', '', ev['flag']))
+        elif k == 'create':
+            rows.append(('create', _slot_name(ev['slot']), '', ev['flag']))
+        elif k == 'write':
+            rows.append(('write', _slot_name(ev['slot']), '', False))
+        elif k == 'rename':
+            rows.append(('rename', _slot_name(ev['slot']), _slot_name(ev['slot2']), False))
+        elif k == 'unlink':
+            rows.append(('unlink', _slot_name(ev['slot']), '', ev['flag']))
+    return rows
 
 
 def section(ctx):
     src = (ctx.REPO / 'replicat' / 'repository.py').read_text()
     tree = ast.parse(src)
-    un = ctx.unparse
-    read_sites, store_sites, dir_sites = [], [], []
-    for m in _methods(tree, 'Repository'):
-        for n in ast.walk(m):
-            if isinstance(n, ast.Call) and un(n.func) == 'self._get_cached' and m.name not in read_sites:
-                read_sites.append(m.name)
-            if isinstance(n, ast.Call) and un(n.func) == 'self._store_cached' and m.name not in store_sites:
-                store_sites.append(m.name)
-            if isinstance(n, ast.Attribute) and un(n) == 'self._cache_directory' and m.name not in dir_sites:
-                dir_sites.append(m.name)
-    lst = lambda xs: '[' + ', '.join('"%s"' % x for x in sorted(xs)) + ']'  # noqa: E731
-    ctx.emit(f'def cacheReadSites : List String := {lst(read_sites)}')
-    ctx.emit(f'def cacheStoreSites : List String := {lst(store_sites)}')
-    ctx.emit(f'def cacheDirSites : List String := {lst(dir_sites)}')
-    # --- _load_snapshots: downloads are submitted only for listed paths
-    ls = ctx.find_func(tree, 'Repository', '_load_snapshots')
-    over_listing = False
-    if ls is not None:
-        submits = [n for n in ast.walk(ls) if isinstance(n, ast.Call) and un(n.func).endswith('run_in_executor')]
-        loops = [n for n in ast.walk(ls) if isinstance(n, ast.AsyncFor)]
-        good = [lp for lp in loops if un(lp.iter) == 'self._aiter(self.backend.list_files, self.SNAPSHOT_PREFIX)' and un(lp.target) == 'path']
-        if len(submits) == 1 and len(good) == 1:
-            inside = any(n is submits[0] for n in ast.walk(good[0]))
-            args_ok = [un(a) for a in submits[0].args] == ['loader', '_download_snapshot', 'path']
-            calls = [n for n in ast.walk(ls) if isinstance(n, ast.Call) and un(n.func) == 'self._download_snapshot_threadsafe']
-            call_ok = len(calls) == 1 and un(calls[0].args[0]) == 'path'
-            over_listing = inside and args_ok and call_ok
-    if not over_listing:
-        ctx.notes['cache.load'] = '_load_snapshots: download submission over the backend listing not recognised'
-    ctx.emit(f'def cacheLoadOverListing : Bool := {"true" if over_listing else "false"}')
-    # --- store only after verifying the download
-    dst = ctx.find_func(tree, 'Repository', '_download_snapshot_threadsafe')
-    ctx.fp('repository._get_cached', ctx.find_func(tree, 'Repository', '_get_cached'))
-    ctx.fp('repository._store_cached', ctx.find_func(tree, 'Repository', '_store_cached'))
-    ctx.fp('repository._delete_cached', ctx.find_func(tree, 'Repository', '_delete_cached'))
-    store_ok = False
-    if dst is not None:
-        for n in ast.walk(dst):
-            if isinstance(n, ast.If) and un(n.test) == 'contents is None':
-                body = [un(x) for x in n.body]
-                try:
-                    i_dl = next(i for i, x in enumerate(body) if x == 'contents = self._download_threadsafe(path, loop=loop)')
-                    i_vf = next(i for i, x in enumerate(body) if x.startswith('if self.props.hash_digest(contents) != expected_digest:') and 'raise ' in x)
-                    i_st = next(i for i, x in enumerate(body) if x.startswith('if self._cache_directory is not None:') and 'self._store_cached(path, contents)' in x)
-                    store_ok = i_dl < i_vf < i_st
-                except StopIteration:
-                    store_ok = False
-    if not store_ok:
-        ctx.notes['cache.store'] = '_download_snapshot_threadsafe: download → verify → store order not recognised'
-    ctx.emit(f'def cacheStoreAfterVerify : Bool := {"true" if store_ok else "false"}')
-    # --- delete_snapshots evicts
-    ds = ctx.find_func(tree, 'Repository', 'delete_snapshots')
-    evicts = False
-    if ds is not None:
-        for n in ast.walk(ds):
-            if isinstance(n, ast.AsyncFunctionDef) and n.name == '_delete_snapshot':
-                body = [un(x) for x in n.body]
-                evicts = (len(body) >= 2 and body[0] == 'await self._delete(location)'
-                          and body[1].startswith('if self._cache_directory is not None:') and 'self._delete_cached(location)' in body[1])
-    ctx.emit(f'def deleteEvictsCache : Bool := {"true" if evicts else "false"}')
-    _store_plan(ctx, tree)
+    ix = _Index(tree, 'Repository')
+    lst = lambda xs: '[' + ', '.join('"%s"' % x for x in sorted(set(xs))) + ']'  # noqa: E731
+    boolean = lambda b: 'true' if b else 'false'  # noqa: E731
+    if not ix.cdir:
+        ctx.notes['cache.dir'] = 'Repository.__init__ does not keep its cache_directory argument in an attribute'
 
+    # ---- pass 1: every function that names the directory (and callers of helpers that return a path derived from it), on its own
+    leaky, runs = set(), {}
+    for _ in range(4):
+        roots = set(ix.d0)
+        for f in leaky:
+            roots |= ix.callers[f]
+        runs = {f: _paths(ix, f, set(), leaky) for f in sorted(roots, key=lambda f: f.qual)}
+        now = {f for f, ps in runs.items() if not isinstance(ps, str) and any(p['end'][0] == 'return' and _tracked(p['end'][1]) for p in ps)}
+        if now <= leaky:
+            break
+        leaky |= now
+    uses, seen = set(), set()
+    site_fns = {'read': set(), 'store': set(), 'evict': set()}
+    for f, ps in runs.items():
+        if isinstance(ps, str):
+            uses.add('aborted:' + f.qual)
+            ctx.notes['cache.pass1:' + f.qual] = ps
+            continue
+        for p in ps:
+            seen |= p['seen']
+            for ev in p['events']:
+                r = _role(ev)
+                if r is not None:
+                    uses.add(r)
+                    if r in site_fns:
+                        site_fns[r].add(ev['site'])
+                    if r.startswith('escape:'):
+                        ctx.notes.setdefault('cache.' + r, '%s (line %d)' % (ev.get('what'), getattr(ev['node'], 'lineno', 0)))
+    for nid, f in ix.dir_nodes.items():
+        if nid not in seen:
+            uses.add('unvisited:' + (f.qual if f is not None else '<module>'))
+    # the attribute named in a string (getattr / setattr / __dict__ access), or used from another module of the package
+    for n in ast.walk(tree):
+        if isinstance(n, ast.Constant) and isinstance(n.value, str) and n.value in ix.cdir:
+            uses.add('dynamic:line %d' % n.lineno)
+    foreign_attrs = set()
+    for other in sorted((ctx.REPO / 'replicat').rglob('*.py')):
+        rel = other.relative_to(ctx.REPO / 'replicat').as_posix()
+        if rel == 'repository.py' or rel.startswith('tests/'):
+            continue
+        try:
+            otree = ast.parse(other.read_text())
+        except (SyntaxError, UnicodeDecodeError, OSError):
+            continue
+        for n in ast.walk(otree):
+            if isinstance(n, ast.Attribute):
+                foreign_attrs.add(n.attr)
+            if (isinstance(n, ast.Attribute) and n.attr in ix.cdir) or (isinstance(n, ast.Constant) and isinstance(n.value, str) and n.value in ix.cdir):
+                uses.add('escape:' + rel)
 
-# ---------------------------------------------------------------------------------------------------------------------------
-# `_store_cached` as a sequence of file-system operations on (entry | temporary next to it)   → `CacheCmd.storePlan`
-#
-# A small symbolic reading of the method body: variables are bound to the entry path, to a temporary derived from it, or to a
-# stream opened on one of them; each recognised statement contributes operations.  `except` handlers are NOT part of the plan
-# (a hard kill runs none of them; on a Python-level exception the command fails anyway); `finally` bodies are.
-# Anything not recognised ⇒ `cacheStoreRecognised = false` and the theorems about the plan stop compiling.
-_UNIQUE_HINTS = ('uuid', 'getpid', 'get_ident', 'token_hex', 'token_urlsafe', 'random', 'secrets', 'time_ns', 'monotonic',
-                 'mkstemp', 'mktemp', 'NamedTemporaryFile', 'urandom')
-
-
-def _store_plan(ctx, tree):
-    un = ctx.unparse
-    fn = ctx.find_func(tree, 'Repository', '_store_cached')
-    ops, ok, why = [], True, ''
-    env = {}                 # variable -> ('path', slot) | ('stream', slot)
-    unique = {'v': None}     # is the temporary's name unique to the run?
-
-    def bad(msg):
-        nonlocal ok, why
-        if ok:
-            ok, why = False, msg
-
-    def kw(call, name, default):
-        for k in call.keywords:
-            if k.arg == name:
-                if isinstance(k.value, ast.Constant):
-                    return k.value.value
-                bad(f'non-literal {name}= in {un(call)}')
-        return default
-
-    def path_slot(e):
-        """expression → 'entry' | 'temp' | None (not a path we know)"""
-        if isinstance(e, ast.Name) and env.get(e.id, ('', ''))[0] == 'path':
-            return env[e.id][1]
-        if isinstance(e, ast.Call) and un(e.func) in ('str', 'os.fspath', 'Path', 'os.fsencode') and len(e.args) == 1:
-            return path_slot(e.args[0])
-        if isinstance(e, ast.Call) and un(e.func) == 'Path' and [un(a) for a in e.args] == ['self._cache_directory', 'path']:
-            return 'entry'
-        if isinstance(e, ast.BinOp) and isinstance(e.op, ast.Div) and un(e) in ('Path(self._cache_directory) / path', 'self._cache_directory / path'):
-            return 'entry'
-        # a sibling derived from a known path: with_name / with_suffix / parent / '…'  / str(path) + '…'
-        if isinstance(e, ast.Call) and isinstance(e.func, ast.Attribute) and e.func.attr in ('with_name', 'with_suffix', 'with_stem') \
-                and path_slot(e.func.value) is not None:
-            return derived(e)
-        if isinstance(e, ast.BinOp) and isinstance(e.op, ast.Div) and isinstance(e.left, ast.Attribute) and e.left.attr == 'parent' \
-                and path_slot(e.left.value) is not None:
-            return derived(e)
-        if isinstance(e, ast.BinOp) and isinstance(e.op, ast.Add) and path_slot(e.left) is not None:
-            return derived(e)
-        return None
-
-    def derived(e):
-        u = any(h in un(e) for h in _UNIQUE_HINTS)
-        if unique['v'] is not None and unique['v'] != u:
-            bad('two kinds of temporaries')
-        unique['v'] = u
-        return 'temp'
-
-    def open_call(e):
-        """`X.open(mode)` / `open(X, mode)` / `io.open(X, mode)` → (slot, mode) | None"""
-        if not isinstance(e, ast.Call):
-            return None
-        if isinstance(e.func, ast.Attribute) and e.func.attr == 'open' and path_slot(e.func.value) is not None:
-            mode = e.args[0] if e.args else next((k.value for k in e.keywords if k.arg == 'mode'), ast.Constant('r'))
-            return path_slot(e.func.value), mode
-        if un(e.func) in ('open', 'io.open') and e.args and path_slot(e.args[0]) is not None:
-            mode = e.args[1] if len(e.args) > 1 else next((k.value for k in e.keywords if k.arg == 'mode'), ast.Constant('r'))
-            return path_slot(e.args[0]), mode
-        return None
-
-    def do_open(slot, mode, var):
-        if not (isinstance(mode, ast.Constant) and isinstance(mode.value, str)):
-            return bad('non-literal open mode')
-        m = mode.value.replace('b', '').replace('+', '')
-        if m not in ('w', 'x'):
-            return bad(f'open mode {mode.value!r}')
-        ops.append(('create', slot, '', m == 'x'))
-        if var is not None:
-            env[var] = ('stream', slot)
-
-    def expr(e):
-        """an expression statement"""
-        if not isinstance(e, ast.Call):
-            return bad('statement ' + un(e)[:60])
-        f = e.func
-        fname = un(f)
-        if isinstance(f, ast.Attribute):
-            recv = f.value
-            if f.attr == 'mkdir' and isinstance(recv, ast.Attribute) and recv.attr == 'parent' and path_slot(recv.value) is not None:
-                if kw(e, 'parents', False) is not True:
-                    return bad('mkdir without parents=True')
-                return ops.append(('mkdir', '', '', kw(e, 'exist_ok', False) is True))
-            if f.attr == 'write_bytes' and path_slot(recv) is not None:
-                ops.append(('create', path_slot(recv), '', False))
-                return ops.append(('write', path_slot(recv), '', False))
-            if f.attr in ('replace', 'rename') and path_slot(recv) is not None and e.args and path_slot(e.args[0]) is not None:
-                return ops.append(('rename', path_slot(recv), path_slot(e.args[0]), False))
-            if f.attr == 'unlink' and path_slot(recv) is not None:
-                return ops.append(('unlink', path_slot(recv), '', kw(e, 'missing_ok', False) is True))
-            if f.attr == 'write' and isinstance(recv, ast.Name) and env.get(recv.id, ('', ''))[0] == 'stream':
-                return ops.append(('write', env[recv.id][1], '', False))
-            if f.attr in ('flush', 'close') and isinstance(recv, ast.Name) and env.get(recv.id, ('', ''))[0] == 'stream':
-                return None
-        if fname in ('os.makedirs',) and e.args and isinstance(e.args[0], ast.Attribute) and e.args[0].attr == 'parent' \
-                and path_slot(e.args[0].value) is not None:
-            return ops.append(('mkdir', '', '', kw(e, 'exist_ok', False) is True))
-        if fname in ('os.replace', 'os.rename') and len(e.args) == 2 and all(path_slot(a) is not None for a in e.args):
-            return ops.append(('rename', path_slot(e.args[0]), path_slot(e.args[1]), False))
-        if fname in ('os.unlink', 'os.remove') and len(e.args) == 1 and path_slot(e.args[0]) is not None:
-            return ops.append(('unlink', path_slot(e.args[0]), '', False))
-        if fname in ('os.fsync',) or fname.startswith('logger.'):
-            return None
-        return bad('statement ' + un(e)[:60])
-
-    def block(stmts):
-        for st in stmts:
-            if not ok:
-                return
-            if isinstance(st, (ast.Assert, ast.Pass)) or (isinstance(st, ast.Expr) and isinstance(st.value, ast.Constant)):
-                continue
-            if isinstance(st, ast.Assign) and len(st.targets) == 1 and isinstance(st.targets[0], ast.Name):
-                v = st.targets[0].id
-                oc = open_call(st.value)
-                if oc is not None:
-                    do_open(oc[0], oc[1], v)
-                elif path_slot(st.value) is not None:
-                    env[v] = ('path', path_slot(st.value))
-                else:
-                    bad('assignment ' + un(st)[:60])
-                continue
-            if isinstance(st, ast.Expr):
-                expr(st.value)
-                continue
-            if isinstance(st, ast.With):
-                for it in st.items:
-                    oc = open_call(it.context_expr)
-                    if oc is not None:
-                        do_open(oc[0], oc[1], it.optional_vars.id if isinstance(it.optional_vars, ast.Name) else None)
-                    elif isinstance(it.context_expr, ast.Name) and env.get(it.context_expr.id, ('', ''))[0] == 'stream':
-                        pass
-                    else:
-                        bad('with ' + un(it.context_expr)[:60])
-                block(st.body)
-                continue
-            if isinstance(st, ast.Try):
-                block(st.body)
-                block(st.orelse)
-                block(st.finalbody)
-                continue
-            if isinstance(st, ast.Return) and st.value is None:
-                continue
-            bad('statement ' + un(st)[:60])
-
-    if fn is None:
-        bad('_store_cached not found')
+    # ---- pass 2: the function that iterates the backend listing of SNAPSHOT_PREFIX, with the loader inlined
+    listers = set()
+    for f in ix.funcs:
+        for n in _own(f.node):
+            if isinstance(n, ast.Call):
+                parts = [x for x in ast.walk(n) if isinstance(x, ast.Attribute)]
+                if any(x.attr == 'list_files' and isinstance(x.value, ast.Attribute) and x.value.attr == 'backend' for x in parts) \
+                        and any(x.attr == 'SNAPSHOT_PREFIX' for x in parts):
+                    listers.add(f)
+    load_targets = set(ix.d0) | ix.mentions_backend('download') | leaky | listers
+    over_listing, store_ok, hit_ok, ecl, lpaths, ls = False, False, False, set(), None, None
+    cands = set(listers)
+    for _ in range(3):
+        # the listing may be produced by a helper: go up to the (single) caller on whose paths the cache is read
+        if len(cands) == 1:
+            ls = next(iter(cands))
+            lpaths = _paths(ix, ls, load_targets, leaky)
+            if isinstance(lpaths, str) or any(ev['kind'] == 'read' for p in lpaths for ev in p['events']) or not ix.callers[ls]:
+                break
+            cands, lpaths = set(ix.callers[ls]), None
+        else:
+            tried = {c: _paths(ix, c, load_targets, leaky) for c in sorted(cands, key=lambda f: f.qual)}
+            hit = [c for c, ps in tried.items() if isinstance(ps, str) or any(ev['kind'] == 'read' for p in ps for ev in p['events'])]
+            if len(hit) == 1:
+                ls, lpaths = hit[0], tried[hit[0]]
+            break
+    if isinstance(lpaths, str):
+        ctx.notes['cache.load'] = '%s: %s' % (ls.qual, lpaths)
+    elif lpaths is None:
+        ctx.notes['cache.load'] = 'no single function reads the cache for the paths of backend.list_files(SNAPSHOT_PREFIX): %s' % sorted(
+            f.qual for f in listers)
     else:
-        block(fn.body)
-    if ok and not ops:
-        bad('no operation recognised')
+        ops = [(p, ev) for p in lpaths for ev in p['events'] if _is_cache_op(ev) or ev['kind'] == 'bdownload']
+        keyed = lambda ev: ev['key'] if ev['kind'] == 'bdownload' else _slot_key(ev['slot'])  # noqa: E731
+        bad = [ev for _, ev in ops if keyed(ev) is None or keyed(ev)[0] != 'listed']
+        reads = [ev for _, ev in ops if ev['kind'] == 'read']
+        over_listing = bool(reads) and not bad and not any(ev['kind'] == 'escape' for p in lpaths for ev in p['events'])
+        if bad:
+            ctx.notes['cache.load'] = '%s: a cache / download operation on something else than a listed path (line %d)' % (
+                ls.qual, getattr(bad[0]['node'], 'lineno', 0))
+        elif not reads:
+            ctx.notes['cache.load'] = '%s: no cache read on the way from the listing' % ls.qual
+        # functions that are only ever entered from the loop over the listing
+        ecl = {f for _, ev in ops if _is_cache_op(ev) for f in ev['stack']} - {ls}
+        while True:
+            drop = {f for f in ecl if not ix.callers[f] <= (ecl | {ls})
+                    or (f.parent is None and (not f.name.startswith('_') or f.name in foreign_attrs))}
+            if not drop:
+                break
+            ecl -= drop
+        ecl.add(ls)
+        # the store: what is written is what was downloaded for that path, and hash(download) == expected is known by then
+        first_store = []
+        store_ok = True
+        why = ''
+        for p in lpaths:
+            evs = [ev for ev in p['events'] if ev['kind'] in _STORE_KINDS or (ev['kind'] == 'unlink' and ev['slot'][0] == 'temp')]
+            if not evs:
+                continue
+            first_store.append(evs[0])
+            writes = [ev for ev in evs if ev['kind'] == 'write']
+            if not writes and not p['exc']:
+                store_ok, why = False, 'a store that writes nothing'
+            for w in writes:
+                d = w['data']
+                if d[0] != 'bytes' or d[1] != 'download' or d[2] != _slot_key(w['slot']):
+                    store_ok, why = False, 'what is written is not the download of that path (line %d)' % getattr(w['node'], 'lineno', 0)
+                    continue
+                proved = [a for a, val in evs[0]['facts'].items() if val and a[0] == 'eq' and ('hash', d) in a[1:]
+                          and not any(_contains(x, d) for x in a[1:] if x != ('hash', d))]
+                if not proved:
+                    store_ok, why = False, 'store not preceded by hash(download) == expected on every path (line %d)' % getattr(w['node'], 'lineno', 0)
+            if any(ev['loop'] > 1 for ev in evs):
+                store_ok, why = False, 'store inside a loop'
+        if not first_store:
+            store_ok, why = False, 'no store on the way from the listing'
+        if not store_ok:
+            ctx.notes['cache.store'] = '%s: %s' % (ls.qual, why)
+        # the cached copy: whatever consumes it (decryption, a return to the caller) does so knowing hash(copy) == expected
+        hits = [ev for p in lpaths for ev in p['events'] if ev['kind'] == 'consume' and ev['data'][1] == 'cache']
+        hits += [dict(data=p['end'][1], facts=p['facts'], node=None) for p in lpaths if p['end'][0] == 'return' and p['end'][1][0] == 'bytes'
+                 and p['end'][1][1] == 'cache']
+        hit_ok = bool(hits)
+        for ev in hits:
+            d = ev['data']
+            if not [a for a, val in ev['facts'].items() if val and a[0] == 'eq' and ('hash', d) in a[1:]
+                    and not any(_contains(x, d) for x in a[1:] if x != ('hash', d))]:
+                hit_ok = False
+                ctx.notes['cache.hit'] = '%s: a cached copy is used without hash(copy) == expected (line %d)' % (ls.qual, getattr(ev['node'], 'lineno', 0))
+        if not hits:
+            ctx.notes['cache.hit'] = '%s: no use of a cached copy found' % ls.qual
+
+    label = lambda f: _LOAD_ROLE if f in ecl else f.qual  # noqa: E731
+    ctx.emit(f'def cacheReadSites : List String := {lst(label(f) for f in site_fns["read"])}')
+    ctx.emit(f'def cacheStoreSites : List String := {lst(label(f) for f in site_fns["store"])}')
+    ctx.emit('/-- every kind of use the code makes of the cache directory (`escape:f` / `unvisited:f` / `aborted:f` / `rebind:f` / `dynamic:…`:')
+    ctx.emit('a use in function / file `f` that the extractor cannot classify) -/')
+    ctx.emit(f'def cacheDirUses : List String := {lst(uses)}')
+    ctx.emit(f'def cacheLoadOverListing : Bool := {boolean(over_listing)}')
+    ctx.emit(f'def cacheStoreAfterVerify : Bool := {boolean(store_ok)}')
+    ctx.emit('/-- every use of a cached copy happens on a path on which `hash(copy) = expected` is known (the semantic reading of what')
+    ctx.emit('the core extractor emits as `cacheVerified`; not consumed by a theorem yet) -/')
+    ctx.emit(f'def cacheHitVerified : Bool := {boolean(hit_ok)}')
+    for role, fns in sorted(site_fns.items()):
+        for f in sorted(fns, key=lambda f: f.qual):
+            ctx.fp('repository.cache_%s:%s' % (role, f.qual), f.node)
+
+    # ---- delete_snapshots: backend deletion of k, then (cache enabled) unlink of the entry of k
+    evicts, why = _evicts(ix, leaky, site_fns['evict'])
+    if not evicts:
+        ctx.notes['cache.evict'] = 'delete_snapshots: ' + why
+    ctx.emit(f'def deleteEvictsCache : Bool := {boolean(evicts)}')
+
+    # ---- the store as a sequence of file-system operations
+    _store_plan(ctx, runs, lpaths)
+
+
+def _evict_ok(paths):
+    """on every path: an unlink of entry(k) comes after the backend deletion of k, and a backend deletion of such a k that
+    completes with the cache enabled is followed by the unlink"""
+    if isinstance(paths, str):
+        return False, paths
+    keys = {_slot_key(ev['slot']) for p in paths for ev in p['events'] if ev['kind'] == 'unlink' and ev['slot'][0] == 'entry'}
+    if not keys:
+        return False, 'no eviction'
+    for p in paths:
+        evs = p['events']
+        for i, ev in enumerate(evs):
+            if ev['kind'] == 'unlink' and ev['slot'][0] == 'entry':
+                if not any(x['kind'] == 'bdelete' and x['key'] == _slot_key(ev['slot']) for x in evs[:i]):
+                    return False, 'eviction without a preceding backend deletion of the same location'
+            if ev['kind'] == 'bdelete' and ev['key'] in keys and p['end'][0] != 'raise' and not p['exc'] and p['facts'].get(('enabled',)) is not False:
+                if not any(x['kind'] == 'unlink' and x['slot'] == ('entry', ev['key']) for x in evs[i + 1:]):
+                    return False, 'a path deletes the snapshot and leaves its cache entry'
+    return True, ''
+
+
+def _evicts(ix, leaky, evict_fns):
+    ds = ix.methods.get('delete_snapshots')
+    if ds is None:
+        return False, 'not found'
+    inside = ix.closure(ds)
+    level = {f for f in evict_fns if f in inside}
+    if not level:
+        return False, 'no unlink of a cache entry in the functions it uses'
+    targets = set(ix.d0) | ix.mentions_backend('delete') | leaky
+    why = ''
+    for _ in range(4):
+        nxt, good = set(), True
+        for f in sorted(level, key=lambda f: f.qual):
+            ok, why = _evict_ok(_paths(ix, f, targets, leaky))
+            if not ok:
+                good = False
+                if f is ds:
+                    return False, why
+                ups = {c for c in ix.callers[f] if c in inside}
+                if not ups:
+                    return False, why
+                nxt |= ups
+            else:
+                nxt.add(f)
+        if good:
+            return True, ''
+        level = nxt
+    return False, why
+
+
+def _store_plan(ctx, runs, lpaths):
+    """`CacheCmd.storePlan`: the operations of a store are those of the paths (not taken through an `except` handler: a hard kill
+    runs none of them, and on a Python-level exception the command fails anyway; `finally` bodies are part of it) of the function(s)
+    in which they are written; every such path must perform the same sequence, and every load that downloads a snapshot with the
+    cache enabled, finds `hash(download) == expected` and completes must perform exactly that sequence (a store that is skipped under
+    some other condition is not this plan)."""
+    plans, uniq, why = [], set(), ''
+    for f, ps in runs.items():
+        if isinstance(ps, str):
+            continue
+        mine = [p for p in ps if any(ev['kind'] in _STORE_KINDS for ev in p['events'])]
+        if not mine:
+            continue
+        for p in mine:
+            uniq |= p['uniq']
+            if any(ev['kind'] == 'escape' for ev in p['events']):
+                why = why or 'a cache path escapes in ' + f.qual
+            if any(ev['loop'] for ev in p['events'] if ev['kind'] in _STORE_KINDS + ('unlink',)):
+                why = why or 'file-system operation inside a loop in ' + f.qual
+            if p['exc']:
+                continue
+            plan = _plan_of(p)
+            if plan not in plans:
+                plans.append(plan)
+    if any(isinstance(ps, str) for ps in runs.values()):
+        why = why or 'a function using the cache directory could not be analysed'
+    if not plans:
+        why = why or 'no store found'
+    elif len(plans) > 1:
+        why = why or 'stores with different operations: %s' % plans[:2]
+    if len(uniq) > 1:
+        why = why or 'two kinds of temporaries'
+    if not why and isinstance(lpaths, list):
+        for p in lpaths:
+            if p['exc'] or p['end'][0] == 'raise' or p['facts'].get(('enabled',)) is not True:
+                continue
+            verified = any(val and a[0] == 'eq' and any(x[0] == 'hash' and x[1][:2] == ('bytes', 'download') for x in a[1:])
+                           for a, val in p['facts'].items())
+            if verified and _plan_of(p) != plans[0]:
+                why = 'a load that downloads and verifies a snapshot does not perform the store as planned: %s' % _plan_of(p)
+                break
+    ok = not why
     if not ok:
-        ctx.notes['cache.store_plan'] = '_store_cached: ' + why
+        ctx.notes['cache.store_plan'] = why
     row = lambda o: '("%s", "%s", "%s", %s)' % (o[0], o[1], o[2], 'true' if o[3] else 'false')  # noqa: E731
-    ctx.emit('/-- the file-system operations of `_store_cached`, in order: (operation, slot, second slot, flag) -/')
-    ctx.emit('def cacheStorePlanRaw : List (String × String × String × Bool) := [' + ', '.join(row(o) for o in (ops if ok else [])) + ']')
-    ctx.emit(f'def cacheTempUnique : Bool := {"true" if unique["v"] else "false"}')
+    ctx.emit('/-- the file-system operations of a store into the cache, in order: (operation, slot, second slot, flag) -/')
+    ctx.emit('def cacheStorePlanRaw : List (String × String × String × Bool) := [' + ', '.join(row(o) for o in (plans[0] if ok else [])) + ']')
+    ctx.emit(f'def cacheTempUnique : Bool := {"true" if (ok and True in uniq) else "false"}')
     ctx.emit(f'def cacheStoreRecognised : Bool := {"true" if ok else "false"}')
